@@ -725,6 +725,26 @@ pub fn execute(scn: &Scn, property: &str) -> RunOutcome {
         prev = now;
     }
 
+    if property == "C05" && out.violation.is_none() && scn.repartition_seed % 4 == 0 {
+        // the state-type dimension: same timelines, same trace, a payload-carrying state type
+        out.count("probe.state_type_twin_run");
+        out.evaluations += scn.ops.len() as u64;
+        match catch(|| crate::shapes::state_type_probe(spec, &scn.ops)) {
+            Ok(None) => {}
+            Ok(Some(d)) => {
+                out.violation = Some(viol("C05", "state-type-dependence", scn.ops.len(), d, "state-type".into()));
+            }
+            Err(p) => {
+                out.violation = Some(viol(
+                    "C05",
+                    &format!("panic@{}:{}", p.file, p.line),
+                    scn.ops.len(),
+                    format!("state-type twin panicked: {}", p.describe()),
+                    "panic state-type".into(),
+                ));
+            }
+        }
+    }
     if property == "C08" {
         // the struct-shape dimension: one of the additional shapes, same operation trace
         let which = (scn.repartition_seed % 6) as usize;
@@ -757,6 +777,24 @@ pub fn execute(scn: &Scn, property: &str) -> RunOutcome {
     if property == "C06" {
         if let Some(v) = check_c06(scn, &mut out, &mut h) {
             out.violation = Some(v);
+        }
+    }
+    if property == "C20" && out.violation.is_none() && scn.repartition_seed % 3 == 0 {
+        out.count("probe.f64_properties_run");
+        match catch(|| crate::shapes::f64_probe(&scn.ops, scn.repartition_seed >> 3)) {
+            Ok(None) => {}
+            Ok(Some(d)) => {
+                out.violation = Some(viol("C20", "non-finite-value", scn.ops.len(), d, "f64".into()));
+            }
+            Err(p) => {
+                out.violation = Some(viol(
+                    "C20",
+                    &format!("panic@{}:{}", p.file, p.line),
+                    scn.ops.len(),
+                    format!("f64 probe panicked: {}", p.describe()),
+                    "panic f64".into(),
+                ));
+            }
         }
     }
     if property == "C20" {
